@@ -580,7 +580,7 @@ impl<'a> Writer<'a> {
     ) -> Result<()> {
         self.with_rollback(|this| {
             this.change_section_to_answer()?;
-            this.add_rr(owner, rr_type, class, ttl, rdata, hint_pointer_vec)?;
+            this.add_rr(owner, rr_type, class, ttl.into(), rdata, hint_pointer_vec)?;
             if let Some(new_ancount) = this.ancount.checked_add(1) {
                 this.ancount = new_ancount;
                 Ok(())
@@ -645,7 +645,7 @@ impl<'a> Writer<'a> {
     ) -> Result<()> {
         self.with_rollback(|this| {
             this.change_section_to_authority()?;
-            this.add_rr(owner, rr_type, class, ttl, rdata, hint_pointer_vec)?;
+            this.add_rr(owner, rr_type, class, ttl.into(), rdata, hint_pointer_vec)?;
             if let Some(new_nscount) = this.nscount.checked_add(1) {
                 this.nscount = new_nscount;
                 Ok(())
@@ -711,7 +711,7 @@ impl<'a> Writer<'a> {
     ) -> Result<()> {
         self.with_rollback(|this| {
             this.section = Section::Additional;
-            this.add_rr(owner, rr_type, class, ttl, rdata, hint_pointer_vec)?;
+            this.add_rr(owner, rr_type, class, ttl.into(), rdata, hint_pointer_vec)?;
             if let Some(new_arcount) = this.arcount.checked_add(1) {
                 this.arcount = new_arcount;
                 Ok(())
@@ -757,14 +757,14 @@ impl<'a> Writer<'a> {
         owner: HintedName,
         rr_type: Type,
         class: Class,
-        ttl: Ttl,
+        raw_ttl: u32,
         rdata: &Rdata,
         mut hint_pointer_vec: Option<&mut HintPointerVec>,
     ) -> Result<()> {
         self.most_recent_owner = self.write_hinted_name(owner)?;
         self.try_push_u16(rr_type.into())?;
         self.try_push_u16(class.into())?;
-        self.try_push_u32(ttl.into())?;
+        self.try_push_u32(raw_ttl)?;
 
         // Save two octets for the RDLENGTH field. We must compute and
         // write this field at the end, since it's affected by
@@ -820,7 +820,7 @@ impl<'a> Writer<'a> {
                 owner,
                 rr_type,
                 class,
-                ttl,
+                ttl.into(),
                 rdata,
                 hint_pointer_vec.as_deref_mut(),
             )?;
@@ -937,7 +937,9 @@ impl<'a> Writer<'a> {
 
         if let Some(ref edns) = self.edns {
             let class = Class::from(edns.udp_payload_size);
-            let ttl = Ttl::from((edns.extended_rcode_upper_bits as u32) << 24);
+            // NOTE: this is the raw value of the TTL field, not a Ttl,
+            // since the most significant bit may be set.
+            let ttl = (edns.extended_rcode_upper_bits as u32) << 24;
             self.available += OPT_RECORD_SIZE;
             self.add_rr(
                 HintedName::new(Hint::None, Name::root()),
@@ -980,7 +982,7 @@ impl<'a> Writer<'a> {
                 HintedName::new(Hint::None, &tsig.rr.key_name),
                 Type::TSIG,
                 Qclass::ANY.into(),
-                Ttl::from(0),
+                0,
                 &rdata,
                 None,
             )
